@@ -39,7 +39,8 @@ def seq_script(rng, sid):
         n += 1
         k2 = dmaplib.hx("T%d" % n)
         t1, t2 = "%s-t%d" % (d, n), "%s-u%d" % (d, n)
-        ops += [{"op": "lock", "c": path, "d": d, "k": k2, "ms": TO, "dl": 30, "tok": t1},
+        # over raw RESP the timeout is sent as PX <ms> or as EX <seconds> (fractional): both forms
+        ops += [dict({"op": "lock", "c": path, "d": d, "k": k2, "ms": TO, "dl": 30, "tok": t1}, **({"ex": 1} if path == "raw@other" else {})),
                 {"op": "dump", "d": d, "k": k2},
                 {"op": "lock", "c": rng.choice(LPATHS), "d": d, "k": k2, "ms": 0, "dl": 30, "tok": t2}]
         # lease extends a timed lock
